@@ -297,7 +297,7 @@ func TestHistories(t *testing.T) {
 }
 
 func TestReplay(t *testing.T) {
-	if ev.ReplayPath() == "" {
+	if ev.ReplayPath() == "" || ev.ReplayPart() == "controller-pipeline" {
 		t.Skip()
 	}
 	var c Case
